@@ -22,6 +22,99 @@ def lean_str(s):
     return '"' + s.replace("\\", "\\\\").replace('"', '\\"') + '"'
 
 
+CAST = re.compile(r"\(\s*(?:const\s+)?(?:unsigned\s+|signed\s+)?(?:long\s+long|long\s+int|long|int|short|char|size_t|bool|LDBLE|double)\s*\)")
+
+
+def resolve_constants(src, hdr=""):
+    """substitute file-level integer constants (`static const T N = 32;`, `const T N = 32;`, `constexpr`, `#define N 32`,
+    `enum { N = 32 }`) by their values"""
+    consts = {}
+    for text in (hdr, src):
+        for m in re.finditer(r"^[ \t]*(?:static\s+)?(?:constexpr|const)\s+[\w \t]+?\b(\w+)\s*=\s*(\d+)[uUlL]*\s*;", text, re.M):
+            consts[m.group(1)] = m.group(2)
+        for m in re.finditer(r"^[ \t]*#\s*define\s+(\w+)\s+\(?(\d+)[uUlL]*\)?\s*$", text, re.M):
+            consts.setdefault(m.group(1), m.group(2))
+        for m in re.finditer(r"\b(\w+)\s*=\s*(\d+)\s*[,}]", text):
+            if not m.group(1).startswith("tok"):
+                consts.setdefault(m.group(1), m.group(2))
+    for name, val in consts.items():
+        src = re.sub(r"(?<![\w.>])" + re.escape(name) + r"\b(?!\s*=[^=])", val, src)
+    return src
+
+
+def normalise(src):
+    src = src.replace("nullptr", "NULL")
+    prev = None
+    while prev != src:                       # nested casts
+        prev = src
+        src = CAST.sub("", src)
+    src = re.sub(r"\bstatic_cast\s*<[^<>]*>\s*", "", src)
+    return re.sub(r"\s+", "", src.replace("this->", ""))
+
+
+def balanced(text, start, open_ch="(", close_ch=")"):
+    """text[start] == open_ch → index just behind the matching close_ch"""
+    depth = 0
+    for k in range(start, len(text)):
+        if text[k] == open_ch:
+            depth += 1
+        elif text[k] == close_ch:
+            depth -= 1
+            if depth == 0:
+                return k + 1
+    raise RuntimeError("gen_basic: unbalanced parentheses")
+
+
+def function_body(norm, name):
+    m = re.search(r"PBasic::" + name + r"\((?:struct)?LOC_exec\*\w*\)(?:const)?\{", norm)
+    if not m:
+        m = re.search(r"\b" + name + r"\([^;{}()]*\)(?:const)?\{", norm)
+    if not m:
+        return None
+    b = m.end() - 1
+    return norm[b + 1:balanced(norm, b, "{", "}") - 1]
+
+
+def loop_condition(norm, fn):
+    body = function_body(norm, fn)
+    if body is None:
+        raise RuntimeError(f"gen_basic: function {fn} not found")
+    m = re.search(r"\bwhile\(|\bfor\(", body)
+    if not m:
+        raise RuntimeError(f"gen_basic: no loop in {fn}")
+    cond = body[m.end() - 1:balanced(body, m.end() - 1)]
+    if body[m.start():m.end()].startswith("for"):
+        parts = cond[1:-1].split(";")
+        cond = "(" + (parts[1] if len(parts) > 1 else "") + ")"
+    return cond
+
+
+def expand_helpers(cond, norm, depth=1):
+    """replace calls of small private helpers (`isTermOp(LINK->t)`) by what they return, one level"""
+    if depth <= 0:
+        return cond
+    out = cond
+    for name in set(re.findall(r"\b([A-Za-z_]\w*)\(", cond)):
+        if name in ("while", "for", "if", "sizeof", "strcmp"):
+            continue
+        body = function_body(norm, name)
+        if body is not None and len(body) < 1500 and "return" in body:
+            rets = re.findall(r"return([^;]*);", body)
+            out = out.replace(name + "(", "(" + "||".join("(" + r + ")" for r in rets) + ")&&(")
+    return out
+
+
+def mask_of(cond, norm):
+    e = expand_helpers(cond, norm)
+    toks = re.findall(r"1L<<\(*(tok\w+)\)*", e)
+    seen, res = set(), []
+    for t in toks:
+        if t not in seen:
+            seen.add(t)
+            res.append(t)
+    return res, set(int(x) for x in re.findall(r"kind<(\d+)", e))
+
+
 def extract():
     h = strip_comments((vlib.REPO / "src" / "phreeqcpp" / "PBasic.h").read_text(errors="replace"))
     c = (vlib.REPO / "src" / "phreeqcpp" / "PBasic.cpp").read_text(errors="replace")
@@ -53,23 +146,27 @@ def extract():
         if k not in seen:
             seen.add(k)
             table.append((k, t))
-    # masks in the evaluator: which enumerators each `1L << tok…` mask names
-    masks = {}
-    for fn, want in (("term", ["toktimes", "tokdiv", "tokmod"]), ("sexpr", ["tokplus", "tokminus"]),
-                     ("expr", ["tokor", "tokxor"])):
-        mm = re.search(r"valrec PBasic::\s*\n" + fn + r"\(struct LOC_exec \* ?LINK\)\s*\{(.*?)\n\}", c, re.S)
-        if not mm:
-            raise RuntimeError(f"gen_basic: function {fn} not found")
-        head = mm.group(1).split("{", 2)[0] if False else mm.group(1)
-        w = re.search(r"while \(LINK->t != NULL && \(unsigned long\) LINK->t->kind < 32 &&(.*?)\)\s*\n\t\{", head, re.S)
-        if not w:
-            raise RuntimeError(f"gen_basic: loop condition of {fn} not recognised")
-        masks[fn] = re.findall(r"\(long\)\s*(tok\w+)", w.group(1))
-    mm = re.search(r"valrec PBasic::\s*\nrelexpr\(struct LOC_exec \* ?LINK\)\s*\{(.*?)\n\}", c, re.S)
-    w = mm and re.search(r"\(\(1L << \(\(long\) (tok\w+) \+ 1\)\) - \(1L << \(\(long\) (tok\w+)\)\)\)", mm.group(1))
+    # masks in the evaluator, read by structure (not by layout): constants resolved, casts / whitespace / nullptr
+    # normalised, the loop condition found by parenthesis matching, a private helper followed one level
+    norm = normalise(resolve_constants(strip_comments(c), strip_comments(h)))
+    masks, bounds = {}, set()
+    for fn in ("term", "sexpr", "expr"):
+        cond = loop_condition(norm, fn)
+        toks, bound = mask_of(cond, norm)
+        if not toks:
+            raise RuntimeError(f"gen_basic: operator mask of {fn} not recognised in `{cond[:120]}`")
+        masks[fn] = toks
+        bounds |= bound
+    cond = loop_condition(norm, "relexpr")
+    w = re.search(r"\(1L<<\((tok\w+)\+1\)\)-\(1L<<\(?(tok\w+)\)?\)", expand_helpers(cond, norm))
     if not w:
-        raise RuntimeError("gen_basic: relexpr mask range not recognised")
+        raise RuntimeError(f"gen_basic: relexpr mask range not recognised in `{cond[:160]}`")
     rel_range = (w.group(2), w.group(1))     # (low, high) inclusive
+    bounds |= set(int(x) for x in re.findall(r"kind<(\d+)", expand_helpers(cond, norm)))
+    if not bounds:
+        raise RuntimeError("gen_basic: no `kind < N` guard found in the operator loops")
+    # the smallest guard is the binding one: `loop_masks` proves that no operator lies at or above it
+    extract.mask_bits = min(bounds)
     return enum, table, masks, rel_range
 
 
@@ -90,6 +187,8 @@ def generate(ctx=None):
     for fn in ("term", "sexpr", "expr"):
         L.append(f"/-- enumerators named by the operator mask of `{fn}` -/")
         L.append(f"def mask_{fn} : List String := [" + ", ".join(lean_str(t) for t in masks[fn]) + "]\n")
+    L.append("/-- the `kind < N` guard in front of every `1L << kind` test -/")
+    L.append(f"def maskBits : Nat := {extract.mask_bits}\n")
     L.append("/-- `relexpr` accepts kinds in the inclusive enumerator range (low, high) -/")
     L.append(f"def relRange : String × String := ({lean_str(rel[0])}, {lean_str(rel[1])})\n")
     L.append("end PhreeqcVerif.Gen.BasicTokens")
@@ -98,7 +197,7 @@ def generate(ctx=None):
     if not out.exists() or out.read_text() != text:
         out.write_text(text)
     if ctx is not None:
-        ctx.cov["translator_basic"] = {"enumerators": len(enum), "keywords": len(table), "masks": masks, "relRange": rel}
+        ctx.cov["translator_basic"] = {"enumerators": len(enum), "keywords": len(table), "masks": masks, "relRange": rel, "maskBits": extract.mask_bits}
     return enum, table
 
 
